@@ -303,7 +303,8 @@ def enumerate_cells(meta, tier, seed):
         asg = assignments(len(pool), tier, seed)
         for r in range(1, len(srcs) + 1):
             for subset in itertools.combinations(srcs, r):
-                for off, step in asg:
+                # one source alone: every value of the pool (each normal form is seen winning from each source)
+                for off, step in (asg if r > 1 else [(o, 1) for o in range(len(pool))]):
                     cells.append({"kind": "M", "s": m["name"], "subset": list(subset), "off": off, "step": step})
                 if "file" in subset and m["name"] != "config" and (tier != "quick" or subset == ("file",)):
                     for dl in ("env-c", "discover", "python", "fileprefix"):
